@@ -89,9 +89,14 @@ func devRun(args []string) {
 		for k, n := range seen {
 			fmt.Printf("  fail-class %s x%d\n", k, n)
 		}
-		for _, w := range j.Panics {
-			b, _ := json.Marshal(w)
-			fmt.Println("  PANIC", string(b))
+		for k, w := range j.Panics {
+			if k < 3 {
+				b, _ := json.Marshal(w)
+				fmt.Println("  PANIC", string(b))
+			}
+		}
+		if len(j.Panics) > 0 {
+			fmt.Printf("  panics x%d\n", len(j.Panics))
 		}
 		for _, w := range j.AllocEvents {
 			b, _ := json.Marshal(w)
